@@ -10,7 +10,8 @@ TRUST = [
 
 PROPS = {
     "C05": {
-        "rules": ["KEY", "LOOKUP", "FIFO", "REGISTRATION", "MSGKIND"],
+        "rules": ["KEY", "LOOKUP", "FIFO", "REGISTRATION", "MSGKIND", "IDALLOC"],
+        "filters": {"IDALLOC": r":rmw|:injective|floor"},
         "explanation": "Static rules over MIR: KEY (symbolic key expressions of tx_action_id / rx_action_id agree per request->acknowledgement pair of the standard, injective bit layout), "
                        "LOOKUP (every completion is sent on the sender removed at linear_search_by_key(awaiting_ack, rx_action_id(same packet))), FIFO (who may mutate Session collections and how), "
                        "REGISTRATION (per-path: written => exactly one registration; refused => none), MSGKIND (message kind / key / channel per handle operation).",
@@ -25,14 +26,16 @@ PROPS = {
         "assumptions": TRUST,
     },
     "C09": {
-        "rules": ["Q2DEDUP", "ACK-TABLE"],
+        "rules": ["Q2DEDUP", "ACK-TABLE", "FIFO"],
+        "filters": {"FIFO": r"unreleased|floor"},
         "explanation": "Necessary structural condition on MIR: delivery of an inbound QoS 2 PUBLISH must be control dependent on a membership test of Session-owned state keyed by the packet identifier, "
                        "with add on first delivery and removal in the PUBREL arm; PUBREC/PUBCOMP reply table.",
         "not_decided": "history-level exactness of the set once it exists (beyond the add/test/remove discipline)",
         "assumptions": TRUST,
     },
     "C10": {
-        "rules": ["QUOTA-WRITERS", "QUOTA-DEC", "QUOTA-INC"],
+        "rules": ["QUOTA-WRITERS", "QUOTA-DEC", "QUOTA-INC", "FIRST-RESPONSE", "DEFAULTS"],
+        "filters": {"FIRST-RESPONSE": r"handle_connack-first|floor", "DEFAULTS": r"ReceiveMaximum|receive_maximum|floor"},
         "explanation": "Who-may-write and guarded-arithmetic rules over Connection.send_quota on MIR: writers, decrement guarded by F != 0 with a refusing F == 0 edge, one decrement before every PUBLISH write, "
                        "increments bounded by F < M, set of releasing acknowledgements = {PUBACK, PUBCOMP, PUBREC >= 0x80}, release independent of lookup/delivery.",
         "not_decided": "numeric claim over concrete long histories (follows from the invariant F + outstanding = M implied by the rules, not separately explored)",
@@ -40,14 +43,16 @@ PROPS = {
         "arith_rules": [],
     },
     "C12": {
-        "rules": ["MAXSIZE-PRED", "MAXSIZE-FIRST", "MAXSIZE-SOURCE"],
+        "rules": ["MAXSIZE-PRED", "MAXSIZE-FIRST", "MAXSIZE-SOURCE", "FIRST-RESPONSE"],
+        "filters": {"FIRST-RESPONSE": r"handle_connack-first|floor"},
         "explanation": "Decision table of validate_packet_size by path enumeration (accept iff absent or len <= max), dominance of the size check over every effect in each outbound arm, "
                        "effect-freedom of the refusing edge, identity of checked and written slice, single source of the limit (CONNACK).",
         "not_decided": "that L is the encoder's true output length (C01)",
         "assumptions": TRUST,
     },
     "C06": {
-        "rules": ["HANDSHAKE-DUP", "HANDSHAKE-QOS2", "THRESH", "MSGKIND"],
+        "rules": ["HANDSHAKE-DUP", "HANDSHAKE-QOS2", "THRESH", "MSGKIND", "QUOTA-DEC"],
+        "filters": {"QUOTA-DEC": r"quota-read-only-for-publish|zero-edge-refuses|floor"},
         "explanation": "Dominance rules on MIR: the DUP bit is set on the stored copy only (after the completed first write, before the push to the retransmission queue), the PUBREL identifier derives from the received PUBREC, "
                        "the PUBREL enqueue is dominated by the Continue edge of the `?` over the PUBREC reason check, QoS 0 completes after its write, reason thresholds are exactly 0x80 with Err on the failing side, one PUBLISH enqueue per QoS branch.",
         "not_decided": "interleavings with other operations and delayed polling between the two QoS 2 phases (schedules); content equality of topic/payload (C01)",
@@ -69,7 +74,8 @@ PROPS = {
         "assumptions": TRUST,
     },
     "C13": {
-        "rules": ["EXITS", "EXITS-EXPLICIT", "EXITS-OK", "FIRST-RESPONSE", "THRESH", "CONV"],
+        "rules": ["EXITS", "EXITS-EXPLICIT", "EXITS-OK", "FIRST-RESPONSE", "THRESH", "CONV", "WRITE"],
+        "filters": {"WRITE": r"WRITE:site:|floor"},
         "explanation": "Complete table of the exits of Context::run (recursively through handle_packet / handle_message / ack / retransmit), each classified by the residual error type of its `?` and what produced it; explicit returns; "
                        "required Ok(()) exits and what they are control dependent on; first-response table of connect()/authorize(); reason thresholds; From<..> for MqttError variant table.",
         "not_decided": "'at every reachable session state': the exits do not consult session state, which is stated rather than explored",
@@ -89,7 +95,8 @@ PROPS = {
         "assumptions": TRUST,
     },
     "C17": {
-        "rules": ["RESUME-PAIR", "RESUME-EXPIRY", "RESUME-ORDER", "HANDSHAKE-DUP"],
+        "rules": ["RESUME-PAIR", "RESUME-EXPIRY", "RESUME-ORDER", "HANDSHAKE-DUP", "FIFO"],
+        "filters": {"FIFO": r"retrasmit_queue|floor"},
         "explanation": "Pairing of every class pushed to the retransmission queue with a keyed removal in the arm of its acknowledgement; normalised truth table of session_expired; dominance/ordering of is_reconnect, session_expired, reset_session, retransmit and the select loop in run(); "
                        "retransmit iterates front to back and awaits each unchanged write; stored copy carries DUP.",
         "not_decided": "behaviour over disconnection points x histories; wall-clock arithmetic",
